@@ -150,12 +150,19 @@ prop("C17", level="other", stages=[tierb_flow.c17_stage],
                  "identical counts. The numerical half (outputs equal to single precision) is not decided.",
      trusted_base=["vlib/tierb_flow.py taint rules"])
 prop("C09", level="other", stages=[tierb_flow.c09_stage],
-     technique="syntactic deny-list obligation over the real-time methods and everything they call in the crate",
+     technique="syntactic deny-list obligation over the real-time methods and everything they call in the crate; Kani/CBMC runs of the compiled "
+               "methods with the global allocator's entry points stubbed by asserting functions (bounded histories)",
      explanation="No allocating or deallocating construct (vec!/format!, Vec/String/Box/Arc constructors, to_vec/collect/push/resize/clone of buffers, buffer "
                  "replacement, realfft's allocating process()) occurs in process_into_buffer, the setters, reset, the getters of the seven types, or in the crate "
                  "functions they call. This is a closed-world syntactic frame obligation on the crate's own code; realfft's process_with_scratch is assumed "
-                 "allocation-free with adequate scratch (its documented contract); the SIMD interpolators and `log` feature are not covered.",
-     trusted_base=["the deny list in vlib/tierb_flow.py", "realfft::process_with_scratch does not allocate"])
+                 "allocation-free with adequate scratch (its documented contract); the SIMD interpolators and `log` feature are not covered. "
+                 "Corroborated on the compiled code: for each of the seven types one (quick) or one per interpolation arm (thorough) concrete history "
+                 "(getters, ratio step and ramp over the whole adjustable range / chunk-size changes / rejected setters, masked and over-long-input calls, "
+                 "reset) is run by CBMC with alloc, alloc_zeroed, realloc_nonnull and dealloc_nonnull of liballoc replaced by stubs asserting that no heap "
+                 "traffic happens between construction and drop; guard harnesses show on every run that each stub intercepts. These runs are bounded "
+                 "(concrete sizes, harness-defined FFT plans / sinc interpolator) and are labelled so.",
+     trusted_base=["the deny list in vlib/tierb_flow.py", "realfft::process_with_scratch does not allocate",
+                   "Kani's allocator model: Global's allocation paths in liballoc go through alloc / alloc_zeroed / realloc_nonnull / dealloc_nonnull (guarded by should_panic harnesses)"])
 
 
 def _c16_getter_consistency(scratch, tier, log):
